@@ -346,6 +346,11 @@ impl<'tcx> Cx<'tcx> {
             ("unsafe", J::Bool(sig.safety().is_unsafe())),
             ("inputs", J::Arr(inputs)),
             ("output", output),
+            // names of the type / const parameters (parents' first, lifetimes left out): positionally the `def_args` of a call
+            ("generics", {
+                let ids = ty::GenericArgs::identity_for_item(tcx, did);
+                self.args(ids)
+            }),
             ("impl", parent_impl),
             ("trait_decl", parent_trait),
             ("docs", J::str(&docs)),
